@@ -377,8 +377,7 @@ def random_scenario(rng, nprocs=None, max_ts=3, max_calls=3, shared=True,
         sc['calls'] = [[rng.randint(3, 12), f] for _iv, f in sc['calls']]
         for c in procs.values():
             c['ts'] = [rng.choice([1, 2, 3, 7]) for _ in c['ts']]
-        if sc['emit_step'] != 1:
-            sc['emit_step'] = 1
+        # (emit_step 2 or 3 means 2 or 3 ticks of the grid here)
     allvars = sorted({v for c in list(procs.values()) + list(sc.get('steps', {}).values())
                       for v in c['vars']})
     r = rng.random()
